@@ -114,7 +114,7 @@ example : splitSemi (packGroups (fun (x : String) => x.toList) [["", ""], ["s0"]
 /-- the packing found on the original tree (one position for a whole range-compressed group in the
 dataset column) is NOT aligned: the third entry is read where the fourth belongs -/
 example : splitSemi (";;s0;s1".toList) ≠ [[], [], [], "s0".toList, "s1".toList] := by decide
-example : parseCursor (fun cs => (String.ofList cs).toNat?) ("-0".toList) = .ok (.e 0) ∧
-    parseCursor (fun cs => (String.ofList cs).toNat?) ("7".toList) = .ok (.b 7) := by decide
+example : parseCursor (fun cs => if cs = ['0'] then some 0 else if cs = ['7'] then some 7 else none) ['-', '0'] = .ok (.e 0) ∧
+    parseCursor (fun cs => if cs = ['0'] then some 0 else if cs = ['7'] then some 7 else none) ['7'] = .ok (.b 7) := by decide
 
 end Stam.C15
